@@ -39,6 +39,8 @@ var _ func(string, string) bool = i_eq
 var _ func(string, string) bool = i_ne
 var _ func(int, bool) bool = i_logic
 var _ func([]int) []int = i_cmp_lambda
+var _ func() frt.Tuple2[GRes[int], GRes[int]] = i_dupu_int
+var _ func() frt.Tuple2[GRes[string], GRes[string]] = i_dupu_str
 var _ func(int, int, int, int) int = i_chain
 var _ func(int, string, string) frt.Tuple3[int, bool, int] = i_chain2
 
